@@ -47,7 +47,18 @@ Definition show_result (r : res dloc) (s : state) : string :=
   | RFail (FRet d) => "RES " ++ show_deep 9 s d
   | RFail FBreak => "ERR(break)"
   | RFail FCont => "ERR(continue)"
-  | RFail (FThrow (EBoxed d)) => "ERR(boxed) " ++ show_deep 9 s d
+  | RFail (FThrow (EBoxed d)) =>
+      (* ChaiScript_Basic::eval hands an eval_error to C++ boxed: a script-rethrown eval_error value and a raw one look the same there *)
+      match nth_error (s_data s) (dl d) with
+      | Some x => match d_obj x with
+                  | Some l => match nth_error (s_objs s) (ol l) with
+                              | Some (OExc "eval_error" _ w) => "ERR(eval_error) " ++ hex_of_string w ++ " [boxed]"
+                              | _ => "ERR(boxed) " ++ show_deep 9 s d
+                              end
+                  | None => "ERR(boxed) " ++ show_deep 9 s d
+                  end
+      | None => "ERR(boxed) " ++ show_deep 9 s d
+      end
   | RFail (FThrow (EEval reason st)) => "ERR(eval_error) " ++ hex_of_string reason ++ " " ++ show_trace st
   | RFail (FThrow (EStd ty w)) => "ERR(" ++ ty ++ ") " ++ hex_of_string w
   | RFail (FThrow (EForeign w)) => "ERR(other)"
